@@ -6,11 +6,19 @@ ASSUMPTIONS = [
     "_write_bundle_with_indicies), read the way the Verilog reader reads a range (bits max..min, most significant first, whatever the "
     "order of the bounds -- that reading is itself decided for the real get_wires_from_cable under C06), denote exactly the given "
     "wires in the given order; the call does not raise",
+    "lemma-level claim (E2, CrossHair/z3): (* *) attribute lists of up to three entries (key only / key = value, every order; values "
+    "from a table of reader-producible token concatenations or any string over 'a1_' up to length 2), rendered by an independent "
+    "three-line writer, read by the real TokenFactory + parse_star_property, written by the real _write_star_constraints and read "
+    "again: accepted, same keys in the same order, same values; stream I/O replaced by a recording sink / direct character feed",
     "outside: every other part of the writer (module headers, port aliases, assigns, parameters, escaped names) and the whole-file "
     "round trip; counterexamples are replayed by writing a real netlist with sdn.compose and re-reading it with sdn.parse",
 ]
 
 
 def jobs(tier):
-    return [dict(name="C04/_write_concatenation", engine="E1/symheap", module="vf.e1.verilog_jobs",
+    from vf.props.C13 import e2job
+    tmo = 200 if tier == "quick" else 900
+    star = [e2job("C04", "c04", "h_attribute_list_roundtrip", tmo, tier,
+                  {"VF_K": k, "VF_L": 2 if tier == "quick" else 3}, "[structure=%d]" % k) for k in range(1, 27)]
+    return star + [dict(name="C04/_write_concatenation", engine="E1/symheap", module="vf.e1.verilog_jobs",
                  func="concatenation_job", timeout=1500, args=dict(tier=tier))]
